@@ -1,6 +1,7 @@
 import GomlVerif.Lemmas.DcePrune
 import GomlVerif.Lemmas.DceScope
 import GomlVerif.Lemmas.DceSim6
+import GomlVerif.Lemmas.DceFile2
 /-!
 # DCE (C02 / C09): theorems about the model of `go/dce.rs` (`Model/Dce.lean`)
 
@@ -13,6 +14,9 @@ value / panic, and environments that agree on the live variables.  Forward simul
 existential on the output side; `Go.Sem` is fuel-monotone (`Lemmas/GoSemMono.lean`), so the
 output result does not depend on which sufficient fuel is taken (`dce_output_unique`).
 (d) `prune_imports_exact`, `prune_funcs_closed`, `prune_funcs_keeps_roots`.
+(e) `dce_file_preserves` — the FILE-level lifting of (c): inside the decidable contract `FileDceOK`, every
+definite run of `main` in a file is reproduced by `eliminate_dead_vars` of the file (all function bodies
+DCE'd at once, unreachable functions and unused imports pruned).
 -/
 set_option linter.unusedSimpArgs false
 set_option linter.unusedVariables false
@@ -245,5 +249,58 @@ theorem prune_funcs_keeps_roots (F : GFile) (r : String) (hr : r ∈ Goml.Gen.dc
   · rw [h]; exact hg
 
 example : "main" ∈ Goml.Gen.dceRoots := by decide
+
+/-! ## (e) the whole pass on a whole file -/
+
+/-- the contract of `dce_file_preserves` (decidable; `Model/Dce.lean`): every function of the file
+    satisfies the contract of `dce_preserves_syn` for the parameter environment of a call (no `_`
+    parameter, `scopeErrs = []` w.r.t. its parameters, `shapeOK`, `semOK (inertSyn false)`), and
+    function names are pairwise distinct -/
+def FileDceOK (F : GFile) : Prop := fileDceOK F = true
+
+instance (F : GFile) : Decidable (FileDceOK F) := by unfold FileDceOK; infer_instance
+
+open Goml.Sem in
+/-- **(e) file-level preservation.**  For every file inside `FileDceOK`: a run of `main` that ends
+    normally or panics is reproduced — stdout, status, extern events — by the file
+    `eliminate_dead_vars` returns, under either `go` schedule and either capacity policy.
+    `eliminate_dead_vars` = `dce_item` on every function at once, then `prune_dead_functions`, then
+    `prune_unused_imports`; the three steps are `mapDce_preserves_call` (the `Go.Sem` file congruence
+    `fileSim_all` with `dce_preserves_syn` applied at every call) and two instances of the lock-step
+    theorem `prune_all` (the semantics never looks up a function outside the reachable set, by the
+    invariant that no value contains a function value outside it).  Rests on two properties of
+    `Go.Sem` made explicit for it: `zero` reads the file only through its struct declarations, and a
+    call with another number of arguments than parameters has no rule (`stuck`). -/
+theorem dce_file_preserves (F : GFile) (hok : FileDceOK F) (fuel : Nat) (eager : Bool) (cap : Nat)
+    (hdef : (runGo fuel F "main" eager cap).status = "ok" ∨ ∃ k, (runGo fuel F "main" eager cap).status = "panic:" ++ k) :
+    ∃ m, runGo m (eliminateDeadVars F) "main" eager cap = runGo fuel F "main" eager cap := by
+  unfold runGo at hdef ⊢
+  generalize hr : callG fuel F { eager := eager, capPolicy := cap } (.func "main") [] = r at hdef ⊢
+  have hd : Definite r := by
+    cases r with
+    | ok v w => trivial
+    | fail f w =>
+      cases f with
+      | panic k => trivial
+      | fuel =>
+        exfalso
+        simp only [failStr] at hdef
+        rcases hdef with h | ⟨k, h⟩
+        · exact absurd h (by decide)
+        · exact absurd (congrArg String.toList h) (by simp)
+      | stuck s =>
+        exfalso
+        simp only [failStr] at hdef
+        rcases hdef with h | ⟨k, h⟩
+        · exact absurd (congrArg String.toList h) (by simp)
+        · exact absurd (congrArg String.toList h) (by simp)
+  obtain ⟨m, hm⟩ := dce_file_call hok fuel { eager := eager, capPolicy := cap } rfl rfl r hr hd
+  exact ⟨m, by rw [hm]⟩
+
+/-- the call-level form: any definite call of `main` in the initial world -/
+theorem dce_file_preserves_call (F : GFile) (hok : FileDceOK F) (n : Nat) (w0 : GWorld) (h0 : w0.heap = #[])
+    (hs0 : w0.spawned = []) (r : GRes GVal) (h : callG n F w0 (.func "main") [] = r) (hdef : Definite r) :
+    ∃ m, callG m (eliminateDeadVars F) w0 (.func "main") [] = r :=
+  dce_file_call hok n w0 h0 hs0 r h hdef
 
 end Goml.Dce
